@@ -104,6 +104,28 @@ impl Display for Token {
     }
 }
 
+/// States of the script data part of the tokenizer, each one reads one byte (or one end tag)
+/// and tells which state comes next, `None` once the script (or the input) has been read
+#[derive(Clone, Copy)]
+enum ScriptDataState {
+    Data,
+    LessThanSign,
+    EndTagOpen,
+    EscapeStart,
+    EscapeStartDash,
+    Escaped,
+    EscapedDash,
+    EscapedDashDash,
+    EscapedLessThanSign,
+    EscapedEndTagOpen,
+    DoubleEscapeStart,
+    DoubleEscaped,
+    DoubleEscapedDash,
+    DoubleEscapedDashDash,
+    DoubleEscapedLessThanSign,
+    DoubleEscapedEnd,
+}
+
 impl Tokenizer {
     pub fn new(reader: Vec<u8>) -> Tokenizer {
         Tokenizer::new_fragment(reader, "".to_string())
@@ -514,311 +536,323 @@ impl Tokenizer {
     }
 
     fn read_script(&mut self) {
-        self.read_script_data();
+        // The script data states are run from this loop instead of calling each other, so that
+        // the stack does not grow with the size of the script
+        let mut state = ScriptDataState::Data;
+
+        while let Some(next_state) = self.read_script_data_state(state) {
+            state = next_state;
+        }
+
         self.data.end = self.raw.end;
     }
 
-    fn read_script_data(&mut self) {
+    fn read_script_data_state(&mut self, state: ScriptDataState) -> Option<ScriptDataState> {
+        match state {
+            ScriptDataState::Data => self.read_script_data(),
+            ScriptDataState::LessThanSign => self.read_script_data_less_than_sign(),
+            ScriptDataState::EndTagOpen => self.read_script_data_end_tag_open(),
+            ScriptDataState::EscapeStart => self.read_script_data_escape_start(),
+            ScriptDataState::EscapeStartDash => self.read_script_data_escape_start_dash(),
+            ScriptDataState::Escaped => self.read_script_data_escaped(),
+            ScriptDataState::EscapedDash => self.read_script_data_escaped_dash(),
+            ScriptDataState::EscapedDashDash => self.read_script_data_escaped_dash_dash(),
+            ScriptDataState::EscapedLessThanSign => self.read_script_data_escaped_less_than_sign(),
+            ScriptDataState::EscapedEndTagOpen => self.read_script_data_escaped_end_tag_open(),
+            ScriptDataState::DoubleEscapeStart => self.read_script_data_double_escape_start(),
+            ScriptDataState::DoubleEscaped => self.read_script_data_double_escaped(),
+            ScriptDataState::DoubleEscapedDash => self.read_script_data_double_escaped_dash(),
+            ScriptDataState::DoubleEscapedDashDash => self.read_script_data_double_escaped_dash_dash(),
+            ScriptDataState::DoubleEscapedLessThanSign => self.read_script_data_double_escaped_less_than_sign(),
+            ScriptDataState::DoubleEscapedEnd => self.read_script_data_double_escaped_end(),
+        }
+    }
+
+    fn read_script_data(&mut self) -> Option<ScriptDataState> {
         let byte = self.read_byte() as char;
 
         if self.err.is_some() {
-            return;
+            return None;
         }
 
         if byte == '<' {
-            self.read_script_data_less_than_sign();
-
-            return;
+            return Some(ScriptDataState::LessThanSign);
         }
 
-        self.read_script_data();
+        Some(ScriptDataState::Data)
     }
 
-    fn read_script_data_less_than_sign(&mut self) {
+    fn read_script_data_less_than_sign(&mut self) -> Option<ScriptDataState> {
         let byte = self.read_byte() as char;
 
         if self.err.is_some() {
-            return;
+            return None;
         }
 
         match byte {
             '/' => {
-                self.read_script_data_end_tag_open();
+                Some(ScriptDataState::EndTagOpen)
             }
             '!' => {
-                self.read_script_data_escape_start();
+                Some(ScriptDataState::EscapeStart)
             }
             _ => {
                 self.raw.end -= 1;
-                self.read_script_data();
+                Some(ScriptDataState::Data)
             }
         }
     }
 
-    fn read_script_data_end_tag_open(&mut self) {
+    fn read_script_data_end_tag_open(&mut self) -> Option<ScriptDataState> {
         if self.read_raw_end_tag() || self.err.is_some() {
-            return;
+            return None;
         }
 
-        self.read_script_data();
+        Some(ScriptDataState::Data)
     }
 
-    fn read_script_data_escape_start(&mut self) {
+    fn read_script_data_escape_start(&mut self) -> Option<ScriptDataState> {
         let byte = self.read_byte() as char;
 
         if self.err.is_some() {
-            return;
+            return None;
         }
 
         if byte == '-' {
-            self.read_script_data_escape_start_dash();
-
-            return;
+            return Some(ScriptDataState::EscapeStartDash);
         }
 
         self.raw.end -= 1;
-        self.read_script_data();
+        Some(ScriptDataState::Data)
     }
 
-    fn read_script_data_escape_start_dash(&mut self) {
+    fn read_script_data_escape_start_dash(&mut self) -> Option<ScriptDataState> {
         let byte = self.read_byte() as char;
 
         if self.err.is_some() {
-            return;
+            return None;
         }
 
         if byte == '-' {
-            self.read_script_data_escaped_dash_dash();
-
-            return;
+            return Some(ScriptDataState::EscapedDashDash);
         }
 
         self.raw.end -= 1;
-        self.read_script_data();
+        Some(ScriptDataState::Data)
     }
 
-    fn read_script_data_escaped(&mut self) {
+    fn read_script_data_escaped(&mut self) -> Option<ScriptDataState> {
         let byte = self.read_byte() as char;
 
         if self.err.is_some() {
-            return;
+            return None;
         }
 
         match byte {
             '-' => {
-                self.read_script_data_escaped_dash();
+                Some(ScriptDataState::EscapedDash)
             }
             '<' => {
-                self.read_script_data_escaped_less_than_sign();
+                Some(ScriptDataState::EscapedLessThanSign)
             }
             _ => {
-                self.read_script_data_escaped();
+                Some(ScriptDataState::Escaped)
             }
         }
     }
 
-    fn read_script_data_escaped_dash(&mut self) {
+    fn read_script_data_escaped_dash(&mut self) -> Option<ScriptDataState> {
         let byte = self.read_byte() as char;
 
         if self.err.is_some() {
-            return;
+            return None;
         }
 
         match byte {
             '-' => {
-                self.read_script_data_escaped_dash_dash();
+                Some(ScriptDataState::EscapedDashDash)
             }
             '<' => {
-                self.read_script_data_escaped_less_than_sign();
+                Some(ScriptDataState::EscapedLessThanSign)
             }
             _ => {
-                self.read_script_data_escaped();
+                Some(ScriptDataState::Escaped)
             }
         }
     }
 
-    fn read_script_data_escaped_dash_dash(&mut self) {
+    fn read_script_data_escaped_dash_dash(&mut self) -> Option<ScriptDataState> {
         let byte = self.read_byte() as char;
 
         if self.err.is_some() {
-            return;
+            return None;
         }
 
         match byte {
             '-' => {
-                self.read_script_data_escaped_dash_dash();
+                Some(ScriptDataState::EscapedDashDash)
             }
             '<' => {
-                self.read_script_data_escaped_less_than_sign();
+                Some(ScriptDataState::EscapedLessThanSign)
             }
             '>' => {
-                self.read_script_data();
+                Some(ScriptDataState::Data)
             }
             _ => {
-                self.read_script_data_escaped();
+                Some(ScriptDataState::Escaped)
             }
         }
     }
 
-    fn read_script_data_escaped_less_than_sign(&mut self) {
+    fn read_script_data_escaped_less_than_sign(&mut self) -> Option<ScriptDataState> {
         let byte = self.read_byte() as char;
 
         if self.err.is_some() {
-            return;
+            return None;
         }
 
         if byte == '/' {
-            self.read_script_data_escaped_end_tag_open();
-
-            return;
+            return Some(ScriptDataState::EscapedEndTagOpen);
         }
 
         if byte.is_ascii_alphabetic() {
-            self.read_script_data_double_escape_start();
-
-            return;
+            return Some(ScriptDataState::DoubleEscapeStart);
         }
 
         self.raw.end -= 1;
-        self.read_script_data();
+        Some(ScriptDataState::Data)
     }
 
-    fn read_script_data_escaped_end_tag_open(&mut self) {
+    fn read_script_data_escaped_end_tag_open(&mut self) -> Option<ScriptDataState> {
         if self.read_raw_end_tag() || self.err.is_some() {
-            return;
+            return None;
         }
 
-        self.read_script_data_escaped();
+        Some(ScriptDataState::Escaped)
     }
 
-    fn read_script_data_double_escape_start(&mut self) {
+    fn read_script_data_double_escape_start(&mut self) -> Option<ScriptDataState> {
         self.raw.end -= 1;
 
         for i in 0.."script".len() {
             let byte = self.read_byte();
 
             if self.err.is_some() {
-                return;
+                return None;
             }
 
             if byte != b"script"[i] && byte != b"SCRIPT"[i] {
                 self.raw.end -= 1;
-                self.read_script_data_escaped();
-
-                return;
+                return Some(ScriptDataState::Escaped);
             }
         }
 
         let byte = self.read_byte() as char;
 
         if self.err.is_some() {
-            return;
+            return None;
         }
 
         match byte {
             ' ' | '\n' | '\r' | '\t' | '\x0c' | '/' | '>' => {
-                self.read_script_data_double_escaped();
+                Some(ScriptDataState::DoubleEscaped)
             }
             _ => {
                 self.raw.end -= 1;
-                self.read_script_data_escaped();
+                Some(ScriptDataState::Escaped)
             }
         }
     }
 
-    fn read_script_data_double_escaped(&mut self) {
+    fn read_script_data_double_escaped(&mut self) -> Option<ScriptDataState> {
         let byte = self.read_byte() as char;
 
         if self.err.is_some() {
-            return;
+            return None;
         }
 
         match byte {
             '-' => {
-                self.read_script_data_double_escaped_dash();
+                Some(ScriptDataState::DoubleEscapedDash)
             }
             '<' => {
-                self.read_script_data_double_escaped_less_than_sign();
+                Some(ScriptDataState::DoubleEscapedLessThanSign)
             }
             _ => {
-                self.read_script_data_double_escaped();
+                Some(ScriptDataState::DoubleEscaped)
             }
         }
     }
 
-    fn read_script_data_double_escaped_dash(&mut self) {
+    fn read_script_data_double_escaped_dash(&mut self) -> Option<ScriptDataState> {
         let byte = self.read_byte() as char;
 
         if self.err.is_some() {
-            return;
+            return None;
         }
 
         match byte {
             '-' => {
-                self.read_script_data_double_escaped_dash_dash();
+                Some(ScriptDataState::DoubleEscapedDashDash)
             }
             '<' => {
-                self.read_script_data_double_escaped_less_than_sign();
+                Some(ScriptDataState::DoubleEscapedLessThanSign)
             }
             _ => {
-                self.read_script_data_double_escaped();
+                Some(ScriptDataState::DoubleEscaped)
             }
         }
     }
 
-    fn read_script_data_double_escaped_dash_dash(&mut self) {
+    fn read_script_data_double_escaped_dash_dash(&mut self) -> Option<ScriptDataState> {
         let byte = self.read_byte() as char;
 
         if self.err.is_some() {
-            return;
+            return None;
         }
 
         match byte {
             '-' => {
-                self.read_script_data_double_escaped_dash_dash();
+                Some(ScriptDataState::DoubleEscapedDashDash)
             }
             '<' => {
-                self.read_script_data_double_escaped_less_than_sign();
+                Some(ScriptDataState::DoubleEscapedLessThanSign)
             }
             '>' => {
-                self.read_script_data();
+                Some(ScriptDataState::Data)
             }
             _ => {
-                self.read_script_data_double_escaped();
+                Some(ScriptDataState::DoubleEscaped)
             }
         }
     }
 
-    fn read_script_data_double_escaped_less_than_sign(&mut self) {
+    fn read_script_data_double_escaped_less_than_sign(&mut self) -> Option<ScriptDataState> {
         let byte = self.read_byte() as char;
 
         if self.err.is_some() {
-            return;
+            return None;
         }
 
         if byte == '/' {
-            self.read_script_data_double_escaped_end();
-
-            return;
+            return Some(ScriptDataState::DoubleEscapedEnd);
         }
 
         self.raw.end -= 1;
-        self.read_script_data_double_escaped();
+        Some(ScriptDataState::DoubleEscaped)
     }
 
-    fn read_script_data_double_escaped_end(&mut self) {
+    fn read_script_data_double_escaped_end(&mut self) -> Option<ScriptDataState> {
         if self.read_raw_end_tag() {
             self.raw.end += "</script>".len();
-            self.read_script_data_escaped();
-
-            return;
+            return Some(ScriptDataState::Escaped);
         }
 
         if self.err.is_some() {
-            return;
+            return None;
         }
 
-        self.read_script_data_double_escaped();
+        Some(ScriptDataState::DoubleEscaped)
     }
 
     fn read_comment(&mut self) {
